@@ -46,6 +46,9 @@ func init() {
 			{"AllBlocked", zzselftest.AllBlocked, 1, []string{"deadlock"}},
 			{"Pipeline3", zzselftest.Pipeline3, 1, []string{"returned:0;1;4;"}},
 			{"PipelineArrival", zzselftest.PipelineArrival, 1, []string{"returned:01", "returned:10"}},
+			{"Idioms", zzselftest.Idioms, 1, []string{"returned:5oncefull0one0 0"}},
+			{"ErrFirst/ok", func() string { return zzselftest.ErrFirst(false) }, 1, []string{"returned:ok"}},
+			{"ErrFirst/fail", func() string { return zzselftest.ErrFirst(true) }, 1, []string{"returned:error: bad record 1"}},
 		}
 		bad := 0
 		out := engine.ProtoOut()
